@@ -86,8 +86,8 @@ def _reference(rng, label, cls):
     rc = lambda: rng.choice(REGS_C)
     ra = lambda: rng.choice(REGS_ANY)
     kinds_near = ['beq', 'bne', 'blt', 'bge', 'bltu', 'bgeu', 'beqz', 'bnez', 'blez', 'bgez', 'bltz', 'bgtz', 'bgt', 'ble',
-                  'bgtu', 'bleu', 'cbeqz', 'j', 'jal', 'jalx', 'call', 'tail']
-    kinds_mid = ['j', 'jal', 'jalx', 'call', 'tail', 'j', 'jal', 'call', 'tail', 'beq', 'bnez']
+                  'bgtu', 'bleu', 'cbeqz', 'j', 'jal', 'jalx', 'call', 'tail', 'xcj', 'xcjal', 'xcbeqz', 'xcbnez']
+    kinds_mid = ['j', 'jal', 'jalx', 'call', 'tail', 'j', 'jal', 'call', 'tail', 'beq', 'bnez', 'xcj', 'xcjal']
     kinds_far = ['j', 'jal', 'jalx', 'call', 'tail', 'call', 'tail', 'li', 'hi_lo', 'dw', 'auipc']
     pool = {'near': kinds_near, 'mid': kinds_mid, 'far': kinds_far}[cls]
     if rng.random() < 0.05:
@@ -105,6 +105,13 @@ def _reference(rng, label, cls):
         return '{} {}'.format(k, label), k
     if k == 'jalx':
         return 'jal {}, {}'.format(rng.choice(['x0', 'x1', 'ra', 'x5', 'zero']), label), k
+    # EXPLICITLY written compressed transfers with the label as operand (D28)
+    if k == 'xcj':
+        return 'c.j {}'.format(label), k
+    if k == 'xcjal':
+        return 'c.jal {}'.format(label), k
+    if k in ('xcbeqz', 'xcbnez'):
+        return 'c.{} {}, {}'.format(k[2:], rc(), label), k
     if k == 'li':
         return 'li {}, {}'.format(ra(), rng.choice([label, '%position({}, 0x08000000)'.format(label), '{} + 4'.format(label), '%offset({})'.format(label), '%offset {}'.format(label)])), k
     if k == 'hi_lo':
@@ -213,6 +220,21 @@ def scenarios(rng, n):
                 add('C = {}\n'.format(C) + fill * (pad // 4) + 'align {}\n{} C\n'.format(pad, kind))
         for pre, cval in (('li t0, 1\n', edge + 8), ('li t0, 1\nli t1, 2\n', edge + 12), ('addi a0, a0, 1\nalign 4\n', edge + 6)):
             add('ENTRY = {}\n{}{} ENTRY\n'.format(cval, pre, kind))
+    # deterministic sweep (always present): EXPLICITLY written compressed transfers to a label, forward and backward, with plain
+    # and compressible filler in between, up to the edge of their reach (c.j / c.jal +-2 KiB, c.beqz / c.bnez +-256 B) (D28)
+    for kind, ins, reach in (('xcj', 'c.j', 2046), ('xcjal', 'c.jal', 2046), ('xcbeqz', 'c.beqz x8,', 254), ('xcbnez', 'c.bnez a5,', 254)):
+        text = '{} T'.format(ins)
+        def body(dist, fill):
+            if fill is None:
+                return 'string {}\n'.format('g' * dist) if dist else ''
+            return fill * (dist // 4)
+        # forward: the transfer (2 bytes), `dist` bytes, the label: offset dist + 2 <= reach
+        for dist, fill in ((0, None), (2, None), (4, 'lui x5, 0x12345\n'), (8, 'addi x8, x8, 1\n'), (reach - 2, 'addi x8, x8, 1\n'), (reach - 2, None)):
+            add('lui x6, 1\n{}\n{}T:\nret\n'.format(text, body(dist, fill)), [{'line': 2, 'kind': kind, 'label': 'T', 'text': text}])
+        # backward: the label, `dist` bytes, the transfer: offset -dist >= -reach - 2
+        for dist, fill in ((2, None), (4, 'lui x5, 0x12345\n'), (8, 'addi x8, x8, 1\n'), (reach - 2, 'addi x8, x8, 1\n'), (reach, None), (reach + 2, None)):
+            b_ = body(dist, fill)
+            add('lui x6, 1\nT:\n{}{}\nret\n'.format(b_, text), [{'line': 3 + b_.count('\n'), 'kind': kind, 'label': 'T', 'text': text}])
     for k in range(n):
         t = k % NSCEN
         j = k // NSCEN          # deterministic walk through the parameter lists
